@@ -4,4 +4,13 @@ go 1.20
 
 require github.com/Comcast/sheens v0.0.0
 
+require (
+	github.com/dlclark/regexp2 v1.7.0 // indirect
+	github.com/dop251/goja v0.0.0-20240220182346-e401ed450204 // indirect
+	github.com/go-sourcemap/sourcemap v2.1.3+incompatible // indirect
+	github.com/google/pprof v0.0.0-20230207041349-798e818bf904 // indirect
+	github.com/gorhill/cronexpr v0.0.0-20180427100037-88b0669f7d75 // indirect
+	golang.org/x/text v0.13.0 // indirect
+)
+
 replace github.com/Comcast/sheens => /repo
